@@ -5,7 +5,8 @@ package metric_test
 // observable counter and one observable gauge, are registered and unregistered in every order:
 // every history of <= 5 (thorough 6) events over {Register(i), Unregister(i), collect}, read by a
 // delta and a cumulative ManualReader at every collect. Each cycle must report exactly the
-// attribute sets of the callbacks registered at that moment; the cumulative counter value is the
+// attribute sets of the callbacks registered at that moment (Unregister may be repeated on a
+// registration that is already gone: it is documented as idempotent); the cumulative counter value is the
 // observed value, the delta is the observed value minus the value observed in the preceding cycle
 // (the whole value if the set was not observed then); the gauge reports the observed value.
 
@@ -161,8 +162,10 @@ func TestVerifC08MultiCB(t *testing.T) {
 		r.Bound("multicb_max_events", maxLen)
 		r.Section(job)
 		// histories: every enabled event sequence that starts with Register(first) and ends with a collect
-		var rec func(hist []int, live [c08mN]bool)
-		rec = func(hist []int, live [c08mN]bool) {
+		// Unregister(i) is enabled once callback i has been registered at all: a second Unregister of
+		// the same registration (the API documents it as idempotent) is part of the alphabet
+		var rec func(hist []int, live, ever [c08mN]bool)
+		rec = func(hist []int, live, ever [c08mN]bool) {
 			if r.Expired() {
 				return
 			}
@@ -174,24 +177,24 @@ func TestVerifC08MultiCB(t *testing.T) {
 				return
 			}
 			for e := 0; e <= 2*c08mN; e++ {
-				l := live
+				l, ev := live, ever
 				switch {
 				case e < c08mN:
 					if live[e] {
 						continue
 					}
-					l[e] = true
+					l[e], ev[e] = true, true
 				case e < 2*c08mN:
-					if !live[e-c08mN] {
+					if !ever[e-c08mN] {
 						continue
 					}
 					l[e-c08mN] = false
 				}
-				rec(append(append([]int{}, hist...), e), l)
+				rec(append(append([]int{}, hist...), e), l, ev)
 			}
 		}
 		var live [c08mN]bool
 		live[first] = true
-		rec([]int{first}, live)
+		rec([]int{first}, live, live)
 	})
 }
